@@ -18,6 +18,7 @@ type Tape struct {
 	overrun int
 }
 
+//go:norace
 func splitmix(x *uint64) uint64 {
 	*x += 0x9e3779b97f4a7c15
 	z := *x
@@ -27,6 +28,8 @@ func splitmix(x *uint64) uint64 {
 }
 
 // Mix derives a run seed from (seed, property, worker, run).
+//
+//go:norace
 func Mix(vals ...uint64) uint64 {
 	s := uint64(0x243f6a8885a308d3)
 	for _, v := range vals {
@@ -36,6 +39,7 @@ func Mix(vals ...uint64) uint64 {
 	return s
 }
 
+//go:norace
 func HashString(s string) uint64 {
 	h := uint64(14695981039346656037)
 	for i := 0; i < len(s); i++ {
@@ -45,13 +49,17 @@ func HashString(s string) uint64 {
 	return h
 }
 
+//go:norace
 func NewTape(seed uint64) *Tape { return &Tape{state: seed} }
 
+//go:norace
 func ReplayTape(vals []uint64) *Tape {
 	return &Tape{replay: true, in: vals}
 }
 
 // Draw returns a value in [0, n). n must be >= 1.
+//
+//go:norace
 func (t *Tape) Draw(n uint64, label string) uint64 {
 	if n <= 1 {
 		// still consume a slot so that tapes stay aligned when ranges change
@@ -76,6 +84,7 @@ func (t *Tape) Draw(n uint64, label string) uint64 {
 	return v
 }
 
+//go:norace
 func (t *Tape) Intn(n int, label string) int {
 	if n <= 0 {
 		n = 1
@@ -84,6 +93,8 @@ func (t *Tape) Intn(n int, label string) int {
 }
 
 // Range returns a value in [lo, hi] (inclusive).
+//
+//go:norace
 func (t *Tape) Range(lo, hi int, label string) int {
 	if hi < lo {
 		hi = lo
@@ -92,11 +103,15 @@ func (t *Tape) Range(lo, hi int, label string) int {
 }
 
 // Chance returns true with probability pct/100; false is the "simple" value.
+//
+//go:norace
 func (t *Tape) Chance(pct int, label string) bool {
 	return t.Intn(100, label) >= 100-pct
 }
 
 // Pick returns an index weighted by w (0 weights allowed); index 0 is simplest.
+//
+//go:norace
 func (t *Tape) Pick(w []int, label string) int {
 	tot := 0
 	for _, x := range w {
@@ -116,6 +131,8 @@ func (t *Tape) Pick(w []int, label string) int {
 }
 
 // Int64 returns a value in [0, 2^63).
+//
+//go:norace
 func (t *Tape) Int63(label string) int64 {
 	return int64(t.Draw(1<<63, label))
 }
